@@ -104,7 +104,20 @@ func VH_C13_api() {
 			}
 		}
 	case 3: // AssignIndex: every stored value, once each, non-increasing
+		// whatever the slice behind the target held before: a fresh nil slice,
+		// one longer than the index (a variable re-used after deletions), a
+		// shorter one with spare capacity
 		var as []int64
+		switch vChoice("target", 3) {
+		case 1:
+			as = make([]int64, len(rows)+2)
+			for j := range as {
+				as[j] = int64(90 + j)
+			}
+		case 2:
+			as = make([]int64, 1, len(rows)+3)
+			as[0] = 77
+		}
 		err := db.AssignIndex(&vObj{}, "A", &as)
 		vAssert("C13.assignindex.ok", err == nil && len(as) == len(rows))
 		for j := 1; j < len(as); j++ {
